@@ -46,7 +46,7 @@ CHECKS = {
         "carried step state are re-derived by an interpreter of the tables. Class fractions (clip active, truncation-only, "
         "termination-only, both on one step) are asserted so the generator cannot go vacuous.",
         design="DESIGN.md §4 C04",
-        note="Trusted: vlib/mdp.py interpreter; the policy double's evaluate_action/value as 'the policy's own numbers'. 12 mutants of on_policy.step all caught.",
+        note="Trusted: vlib/mdp.py interpreter; the policy double's evaluate_action/value as 'the policy's own numbers'; for the CartPole/Pendulum part the environment's own functional API. 12 mutants of on_policy.step all caught; the library MLP policy and built-in environments are exercised as well as the table doubles.",
     ),
     "C05": dict(
         technique="property-based testing over generated finite MDPs (Hypothesis) with a NumPy reference interpreter as oracle",
@@ -169,12 +169,14 @@ CHECKS = {
         note="Trusted: filesystem; Python-scalar fields compared at float32 precision. 6 mutants caught, 2 equivalent mutants discarded (equinox re-adds the suffix itself).",
     ),
     "C11": dict(
-        technique="metamorphic property-based testing: repeated / re-keyed / observed learn() runs compared bit-for-bit (seeded configurations in a process pool)",
+        technique="metamorphic property-based testing: repeated (bit-identical) / re-keyed (different) / observed (equal up to rounding) learn() runs, seeded configurations in a process pool",
         text="For PPO, A2C, REINFORCE, DQN and SAC on CartPole / Pendulum / generated finite MDPs with seeded hyper-parameters and keys: "
         "learn() twice with identical inputs must give bit-identical array leaves, another key must give different ones, the input "
         "policy is compared with a host copy taken beforehand, and every observer set (None vs [], a no-op callback, ProgressBar, "
         "LoggingCallback with a recording back end, LoggingCallback with Console+TensorBoard, a list of two) must reproduce the "
-        "unobserved run bit-for-bit.",
+        "unobserved run up to reassociation-level rounding (rtol 1e-4 / atol 1e-5 on float leaves, integer leaves exactly: an observed "
+        "run is a different XLA program and was measured 1 ulp apart; a desynchronised key or observer feedback moves parameters by "
+        "O(learning rate)).",
         design="DESIGN.md §4 C11",
         note="Trusted: bit-identity within one process/XLA build is what the statement needs. Each (algorithm, env, config, observer structure) costs a learn() compile, so the number of configurations is small (10 quick / 40 thorough). 4 mutants caught, 1 equivalent discarded.",
     ),
